@@ -252,7 +252,7 @@ def run(ctx):
     ctx.sample({"source": "TLC numeric vectors (Gen_CmdLine, LEN=num)", "execution": [show(l[1:]) for l in ex[0][1:9]]})
 
     # ---- leg 3: seeded random vectors: documented language with arbitrary identifier-like values; arbitrary bytes (safety only)
-    ndoc, nwild = (3000, 3000) if quick else (60000, 60000)
+    ndoc, nwild = (3000, 3000) if quick else (50000, 50000)
     docs = [rnd_doc_vector(ctx.rng) for _ in range(ndoc)]
     ex = go("random_documented", docs)
     ctx.sample({"source": "seeded random documented vectors", "execution": [show(l[1:]) for l in ex[0][1:7]]})
